@@ -686,6 +686,8 @@ class Executor:
 def reduce_vec(kind, v, n):
     if isinstance(v, Vec) and v.ety == "B" and kind == "sum":
         return Sc("Z", f"(kcount {materialise(v)})")
+    if isinstance(v, Vec) and v.ety == "R" and CFG["scope"] == "Q" and kind == "sum":
+        return Sc("R", f"(ksumQ {materialise(v)})")
     if not isinstance(v, Vec) or v.ety != "R" or CFG["scope"] != "R":
         fail(n, "reduction of a non-real vector")
     return Sc("R", f"({'kmean' if kind == 'mean' else 'ksum'} {materialise(v)})")
@@ -787,6 +789,8 @@ def _p_scan(ex, n, args, kwargs):
     if len(args) != 3:
         fail(n, "scan arity")
     f, init, xs = args
+    if isinstance(xs, Vec) and xs.ety == "K":
+        return _p_filter_scan(ex, n, args, kwargs)
     rev = kwargs.get("reverse")
     reverse = isinstance(rev, Sc) and rev.t == "true"
     if set(kwargs) - {"reverse"}:
@@ -822,6 +826,15 @@ def _flat_fields(v, n, what):
         return [("", v)]
     if isinstance(v, Static) and v.v is None:
         return []
+    if isinstance(v, tuple):
+        out = []
+        for i, x in enumerate(v):
+            if isinstance(x, Num):
+                x = to_sc(x, "R", n)
+            if not isinstance(x, Sc):
+                fail(n, f"{what}: component {i} is not a scalar value")
+            out.append((str(i), x))
+        return out
     if isinstance(v, Obj):
         out = []
         for k in sorted(v.fields):
@@ -855,7 +868,10 @@ def _p_filter_scan(ex, n, args, kwargs):
         if isinstance(old, Obj) and "@name" in old.fields:
             return Obj({**old.fields, "@name": sc_new}, old.name)
         return sc_new
-    carry = Obj({k: like(k, Sc(v.ty, nm)) for (k, v), nm in zip(cf, names)}, getattr(init, "name", "carry")) if isinstance(init, Obj) else Sc(cf[0][1].ty, names[0])
+    if isinstance(init, tuple):
+        carry = tuple(Sc(v.ty, nm) for (k, v), nm in zip(cf, names))
+    else:
+        carry = Obj({k: like(k, Sc(v.ty, nm)) for (k, v), nm in zip(cf, names)}, getattr(init, "name", "carry")) if isinstance(init, Obj) else Sc(cf[0][1].ty, names[0])
     if isinstance(init, Obj):
         for k, v in init.fields.items():      # static (None) fields are carried as they are
             if k not in carry.fields:
@@ -869,16 +885,22 @@ def _p_filter_scan(ex, n, args, kwargs):
     o2 = _flat_fields(out[1], n, "scan output")
     body = f"({_tuple_term([v.t for _, v in c2])}, {_tuple_term([v.t for _, v in o2]) if o2 else 'tt'})"
     fn = f"(fun c__{d} k__{d} => let '{_tuple_term(names)} := c__{d} in {body})"
-    T = f"(kfoldmap {fn} {_tuple_term([v.t for _, v in cf])} {materialise(keys)})"
+    T = f"(kfoldmapi {_tuple_term([v.t for _, v in cf])} {materialise(keys)} {fn})"
 
     def proj(i, m, of):
         vs = [f"p{j}__" for j in range(m)]
         return f"(let '{_tuple_term(vs)} := {of} in {vs[i]})"
     fin = {k: like(k, Sc(v.ty, proj(i, len(cf), f"(fst {T})"))) for i, (k, v) in enumerate(cf)}
-    final = Obj(dict(getattr(init, "fields", {}), **fin), getattr(init, "name", "carry")) if isinstance(init, Obj) else fin[""]
+    if isinstance(init, tuple):
+        final = tuple(fin[str(i)] for i in range(len(cf)))
+    else:
+        final = Obj(dict(getattr(init, "fields", {}), **fin), getattr(init, "name", "carry")) if isinstance(init, Obj) else fin[""]
     if not o2:
         return (final, Static(None))
     ovs = [f"o{j}__" for j in range(len(o2))]
+    if len(o2) == 1:
+        outs = {o2[0][0]: Vec.base(f"(snd {T})", o2[0][1].ty)}
+        return (final, Obj(outs, getattr(out[1], "name", "rows")) if isinstance(out[1], Obj) else outs[o2[0][0]])
     outs = {k: Vec.base(f"(map (fun r__ => let '{_tuple_term(ovs)} := r__ in {ovs[i]}) (snd {T}))", v.ty) for i, (k, v) in enumerate(o2)}
     return (final, Obj(outs, getattr(out[1], "name", "rows")) if isinstance(out[1], Obj) else outs[""])
 
@@ -959,7 +981,7 @@ BUILTIN_PRIMS = {
     "jnp.minimum": Prim(_binfn("min", "Z.min")), "jnp.maximum": Prim(_binfn("max", "Z.max")),
     "jnp.clip": Prim(_p_clip), "jnp.where": Prim(_p_where), "lax.select": Prim(_p_where), "lax.cond": Prim(_p_cond),
     "jnp.mean": Prim(_p_mean), "jnp.sum": Prim(_p_sum), "jnp.concatenate": Prim(_p_concatenate),
-    "lax.scan": Prim(_p_scan), "filter_scan": Prim(_p_filter_scan), "jr.split": Prim(_p_split), "jax.random.split": Prim(_p_split),
+    "lax.scan": Prim(_p_scan), "jax.lax.scan": Prim(_p_scan), "jax.lax.cond": Prim(_p_cond), "filter_scan": Prim(_p_filter_scan), "jr.split": Prim(_p_split), "jax.random.split": Prim(_p_split),
     "eqx.error_if": Prim(_p_error_if), "jax.tree.map": Prim(_p_tree_map), "jax.tree_util.tree_map": Prim(_p_tree_map),
     "jnp.arange": Prim(_p_arange), "jax.vmap": Prim(_p_vmap), "jnp.argmax": Prim(_p_argmax),
     "jax.lax.stop_gradient": Prim(_p_identity), "lax.stop_gradient": Prim(_p_identity), "jnp.isfinite": Prim(_p_isfinite),
